@@ -32,3 +32,7 @@ claim('C08', 'Hypothesis-generated segments and paths; containment and tightness
       'About 16k (quick) / 300k (thorough) segments incl. exactly and approximately degree-deficient cubics, symmetric and collinear polygons, arcs classified by the number of axis extremes they cross (0..4); every side of the box must contain the sampled curve and coincide with an independently computed extreme; Path.bbox must be the exact union.',
       'Trusts: the harness critical-point solver (stable quadratic formula + Newton; atan2 critical angles) cross-checked by a 1025-point sample; tolerances in the evidence assumptions; KF02 recorded.',
       'DESIGN.md 2/C08')
+claim('C09', 'Hypothesis-generated segments, split/crop parameters and paths (closed, retraced, joint-aligned, wrap-around); oracle is the documented parameter map evaluated point-wise plus end-point/joint/length predicates for path crops',
+      'About 20k (quick) / 300k (thorough) cases: reversed/split/cropped of every segment class compared with point() under the stated reparameterisation at 9+ parameters; path reversed() mirror and length; path cropped() start/end/joints/length incl. T at joints, T1<T0 on closed paths and paths containing a segment twice.',
+      'Trusts: point() (C03/C04), length() (C06), T2t (C05); arc tolerances as in C04; crops below the joint-snapping resolution are excluded and recorded as KF04.',
+      'DESIGN.md 2/C09')
